@@ -8,7 +8,7 @@ PROP = dict(
     rule="TODO",
     assumptions=[],
     engines=[
-        gt("tx", "registry", "TestVerifC30Tx", dict(checks=1500, shards=2), dict(checks=50000, shards=8)),
-        gt("bag", "registry", "TestVerifC30Bag", dict(checks=1500, shards=1), dict(checks=50000, shards=4)),
+        gt("tx", "registry", "TestVerifC30Tx", dict(checks=2500, shards=2), dict(checks=50000, shards=8)),
+        gt("bag", "registry", "TestVerifC30Bag", dict(checks=3000, shards=1), dict(checks=50000, shards=4)),
     ],
 )
